@@ -53,6 +53,8 @@ type Exec struct {
 	newWork     []WorkItem
 	model       map[string]uint64 // satisfies pc, or nil
 	pcset       map[int]bool
+	fixed       map[int]uint64 // input variables determined by the path condition
+	fixedSet    varset
 	prefixModel map[string]uint64
 	steps       int
 	budget      int
@@ -76,6 +78,9 @@ type Exec struct {
 	par         *parState
 	lastInstr   string
 	funcs       map[*ssa.Function]bool
+	tokSrc      *tokSrc
+	noSummary   bool
+	summaryHits int
 }
 
 type Violation struct {
@@ -217,6 +222,23 @@ func (ex *Exec) addPC(c *Term) {
 	}
 	ex.pc = append(ex.pc, c)
 	ex.pcset[c.id] = true
+	if c.op == OpEq {
+		v, k := c.args[0], c.args[1]
+		if v.op == OpConst {
+			v, k = k, v
+		}
+		if v.op == OpVar && k.op == OpConst {
+			i := ex.ts.varIdx[v.name]
+			ex.fixed[i] = k.val
+			ex.fixedSet = ex.fixedSet.union(v.vars)
+		}
+	} else if c.op == OpVar && c.bits == 0 {
+		ex.fixed[ex.ts.varIdx[c.name]] = 1
+		ex.fixedSet = ex.fixedSet.union(c.vars)
+	} else if c.op == OpNot && c.args[0].op == OpVar {
+		ex.fixed[ex.ts.varIdx[c.args[0].name]] = 0
+		ex.fixedSet = ex.fixedSet.union(c.args[0].vars)
+	}
 	if ex.model != nil {
 		if v, ok := ex.ts.Eval(c, ex.model); !ok || v == 0 {
 			ex.model = nil
@@ -231,6 +253,12 @@ func (ex *Exec) decide(c *Term) bool {
 	}
 	if c.isConst() {
 		return c.isTrue()
+	}
+	if len(ex.fixed) > 0 && c.vars.intersects(ex.fixedSet) {
+		c = ex.ts.Subst(c, ex.fixed, ex.fixedSet, map[*Term]*Term{})
+		if c.isConst() {
+			return c.isTrue()
+		}
 	}
 	if ex.par != nil {
 		ex.par.noteDecision()
@@ -340,6 +368,12 @@ func (ex *Exec) concretize(t *Term) uint64 {
 	if t.isConst() {
 		return t.val
 	}
+	if len(ex.fixed) > 0 && t.vars.intersects(ex.fixedSet) {
+		t = ex.ts.Subst(t, ex.fixed, ex.fixedSet, map[*Term]*Term{})
+		if t.isConst() {
+			return t.val
+		}
+	}
 	ex.concretized++
 	ts := ex.ts
 	var excl []uint64
@@ -355,33 +389,71 @@ func (ex *Exec) concretize(t *Term) uint64 {
 			return d.Val
 		}
 		excl = d.Excl
+		if ex.prefixModel != nil && ex.model == nil {
+			ex.model = ex.prefixModel
+			ex.prefixModel = nil
+			for _, p := range ex.pc {
+				if v, ok := ex.ts.Eval(p, ex.model); !ok || v == 0 {
+					ex.model = nil
+					break
+				}
+			}
+		}
 	}
 	ex.pos++
-	// find a value not excluded
-	cs := ex.sliceFor(t)
+	var exclC []*Term
 	for _, e := range excl {
-		cs = append(cs, ts.Not(ts.Eq(t, ts.Const(e, t.bits))))
+		exclC = append(exclC, ts.Not(ts.Eq(t, ts.Const(e, t.bits))))
 	}
-	// a fresh equality var to read the value: use get-value on a defined term via auxiliary variable
-	aux := ts.Var(fmt.Sprintf("aux%d", t.bits), t.bits)
-	cs2 := append(append([]*Term{}, cs...), ts.Eq(aux, t))
-	v, m := ex.sol.Model(cs2, []*Term{aux})
-	switch v {
-	case Unsat:
-		panic(pathEnd{kind: "infeasible", msg: "no further value"})
-	case Unknown:
-		ex.unknowns++
-		panic(pathEnd{kind: "solver", msg: "unknown while concretising"})
+	// candidate value from the model of the path condition, if it respects the exclusions
+	var val uint64
+	have := false
+	ex.ensureModel()
+	if ex.model != nil {
+		if v, ok := ts.Eval(t, ex.model); ok {
+			have = true
+			for _, e := range excl {
+				if e == v {
+					have = false
+				}
+			}
+			val = v
+		}
 	}
-	val := m[aux.name]
+	if !have {
+		cs := append(ex.sliceFor(t), exclC...)
+		aux := ts.Var(fmt.Sprintf("aux%d", t.bits), t.bits)
+		cs2 := append(append([]*Term{}, cs...), ts.Eq(aux, t))
+		v, m := ex.sol.CheckModel(cs2)
+		switch v {
+		case Unsat:
+			panic(pathEnd{kind: "infeasible", msg: "no further value"})
+		case Unknown:
+			ex.unknowns++
+			panic(pathEnd{kind: "solver", msg: "unknown while concretising"})
+		}
+		val = m[aux.name]
+		if ex.model != nil {
+			ex.model = mergeModel(ex.model, m)
+		}
+	}
 	// is there another value? (push alternative only if so)
 	excl2 := append(append([]uint64{}, excl...), val)
-	cs3 := append(append([]*Term{}, cs...), ts.Not(ts.Eq(t, ts.Const(val, t.bits))))
-	if ex.sol.Check(cs3) != Unsat {
+	other := append(ex.sliceFor(t), exclC...)
+	other = append(other, ts.Not(ts.Eq(t, ts.Const(val, t.bits))))
+	if v, m := ex.sol.CheckModel(other); v != Unsat {
+		if v == Unknown {
+			ex.unknowns++
+			ex.tainted = true
+		}
 		alt := make([]Decision, len(ex.trace)+1)
 		copy(alt, ex.trace)
 		alt[len(ex.trace)] = Decision{Kind: 'v', Open: true, Excl: excl2}
-		ex.newWork = append(ex.newWork, WorkItem{Prefix: alt})
+		var wm map[string]uint64
+		if ex.model != nil && m != nil {
+			wm = mergeModel(ex.model, m)
+		}
+		ex.newWork = append(ex.newWork, WorkItem{Prefix: alt, Model: wm})
 	}
 	ex.trace = append(ex.trace, Decision{Kind: 'v', Val: val})
 	ex.addPC(ts.Eq(t, ts.Const(val, t.bits)))
@@ -478,6 +550,8 @@ func (ex *Exec) pcString() string {
 func (ex *Exec) resetPath(item WorkItem) {
 	ex.pc = ex.pc[:0]
 	ex.pcset = map[int]bool{}
+	ex.fixed = map[int]uint64{}
+	ex.fixedSet = nil
 	ex.model = nil
 	ex.prefixModel = item.Model
 	if len(item.Prefix) == 0 {
@@ -505,6 +579,8 @@ func (ex *Exec) resetPath(item WorkItem) {
 	ex.unknowns = 0
 	ex.concretized = 0
 	ex.par = nil
+	ex.tokSrc = nil
+	ex.noSummary = false
 }
 
 // runPath executes the harness once along the given decision prefix.
